@@ -102,6 +102,12 @@ func (x *Exec) finish(st *State, fr *Frame, retTo ssa.Value, res Val, deferred b
 					}
 				}
 				for _, a := range anns {
+					if a.Kind == "ensure" && !x.assumedOnly(a.Cl) {
+						// an intermediate assertion about the call's result: proved here, then available as a lemma
+						t := x.evalBool(env, a.Cl.Expr, a.Cl)
+						site, _ := x.siteAnns(st, fr, call.Call.Pos())
+						x.oblige(st, fmt.Sprintf("%s/at:%s-ensure#%d", x.curFunc, site, a.Cl.Ord), "site-assert", a.Cl.Tags, t, call.Call.Pos(), "after "+site+": "+a.Cl.Src)
+					}
 					if a.Kind == "set" {
 						gs, isGhost := x.ghostSort(a.Ghost)
 						if !isGhost {
@@ -288,6 +294,9 @@ func (x *Exec) applyContract(st *State, fr *Frame, retTo ssa.Value, c *Contract,
 	}
 	site := x.siteName(fr, pos)
 	for _, r := range c.Requires {
+		if r.Assume {
+			continue
+		}
 		t := x.evalBool(env, r.Expr, r)
 		name := fmt.Sprintf("%s/pre:%s#%d@%s", x.curFunc, key, r.Ord, site)
 		x.oblige(st, name, "precondition", r.Tags, t, pos, "precondition of "+key+": "+r.Src)
@@ -378,6 +387,9 @@ func (x *Exec) applyContract(st *State, fr *Frame, retTo ssa.Value, c *Contract,
 	if dead {
 		st.dead = true
 		return out
+	}
+	if res != nil {
+		st.boundRefs(res) // results were allocated no later than now (fresh() results got their number above)
 	}
 	x.finish(st, fr, retTo, res, deferred)
 	return out
